@@ -28,6 +28,9 @@ import (
 //	negzero      {"last": -0.0}                             0
 //	missing / null / false / obj / arr / strbad / nobody    0 (gjson: no number there)
 //	true         {"last": true}                             1
+//	nan          {"last": "NaN"}                            a valid response that holds no number: max / min
+//	                                                        skip it (sent to max / min feeds only, once another
+//	                                                        provider has answered the batch with a number)
 //	emptyout / errout / badresult / nohdr / ridshort        refused by ValidateBasic
 //	strinf / strnan / huge   (cfg inf=1 only)               +Inf / NaN / 1e999: findings/oraclerandom.md
 //
@@ -130,6 +133,8 @@ func renderAnswer(kind, pay, path string, x int64) (result, output string) {
 		return `{"code":201,"message":""}`, body(wrap(path, num, ""))
 	case "nohdr":
 		return ok, `{"body":` + wrap(path, num, "") + `}`
+	case "nan":
+		return ok, body(wrap(path, `"NaN"`, ""))
 	case "strinf":
 		return ok, body(wrap(path, `"Inf"`, ""))
 	case "strnan":
